@@ -70,7 +70,19 @@ def directed_prefixed():
                 yield "%s ;; %s ;; run %s ;; discard 0 ;; scan 1" % (cfg, first, second)
 
 
+def directed_kill_discard():
+    """a result is discarded right after a machine holding part of it died (the Worker.Discard call fails): the discarded
+    tasks must still end up lost, so that the next use recomputes them"""
+    rows = "1:1 2:2 3:3 4:4 5:5 6:6 7:7 8:8"
+    for cfg in ("bm M1 P2 KA", "bm M2 P4 KA", "bm M1 P3 KA"):
+        for first in ("N0=const 2 %s ; N1=map N0 inc ; OUT N1" % rows, "N0=const 3 %s ; N1=reduce N0 add ; OUT N1" % rows):
+            yield "%s ;; run %s ;; kill ;; discard 0 ;; run N0=map R0 id ; OUT N0 ;; scan 1" % (cfg, first)
+            yield "%s ;; run %s ;; run N0=map R0 inc ; OUT N0 ;; kill ;; discard 1 ;; run N0=reshuffle R1 ; OUT N0" % (cfg, first)
+
+
 def gen(r, tier):
+    for c in directed_kill_discard():
+        yield c
     for c in directed_prefixed():
         yield c
     alld = list(directed())
